@@ -25,7 +25,8 @@ PLAN = {
     "mc": {"quick": DESIGN_Q, "thorough": DESIGN_T},
     "beh": {
         "quick": [(MC, "Beh_Customize_q.cfg", fc.convert_for("composite"), 0, 0), (MC, "Beh_Customize_q.cfg", fc.convert_for("decorator"), 0, 0)],
-        "thorough": [(MC, "Beh_Customize_t.cfg", fc.convert_for("composite"), 0, 0), (MC, "Beh_Customize_t.cfg", fc.convert_for("decorator"), 0, 0)],
+        # thorough: every case in three of the twelve variants (change kind x rules of generation 2 x second parent)
+        "thorough": [(MC, "Beh_Customize_t.cfg", fc.convert_for(k, sh), 0, 0) for k in ("composite", "decorator") for sh in (0, 4, 8)],
     },
 }
 
